@@ -14,7 +14,6 @@ import (
 	"github.com/opencontainers/go-digest"
 	ocispec "github.com/opencontainers/image-spec/specs-go/v1"
 	"oras.land/oras-go/v2/content"
-	"oras.land/oras-go/v2/errdef"
 	"oras.land/oras-go/v2/registry/remote"
 	"oras.land/oras-go/v2/zsim/simrt"
 )
@@ -552,7 +551,6 @@ func (p *remoteProp) step(ctx context.Context, rc *RunCtx, rp *RemoteParams, g *
 	}
 
 	// fault-free step: equals the model
-	notFound := errors.Is(err, errdef.ErrNotFound)
 	switch op.Op {
 	case "push", "pushref":
 		if err != nil {
@@ -578,9 +576,6 @@ func (p *remoteProp) step(ctx context.Context, rc *RunCtx, rp *RemoteParams, g *
 		if !present {
 			if err == nil {
 				return violation("fetched-absent-content", "", "step %d %s succeeded although the registry does not hold it\n%s", i, op, hist())
-			}
-			if !notFound {
-				return violation("wrong-error", "", "step %d %s: expected not-found, got %v\n%s", i, op, err, hist())
 			}
 			return nil
 		}
@@ -614,9 +609,6 @@ func (p *remoteProp) step(ctx context.Context, rc *RunCtx, rp *RemoteParams, g *
 		if !tagKnown {
 			if err == nil {
 				return violation("wrong-answer", "", "step %d %s succeeded for an unknown tag\n%s", i, op, hist())
-			}
-			if !notFound {
-				return violation("wrong-error", "", "step %d %s: expected not-found, got %v\n%s", i, op, err, hist())
 			}
 			return nil
 		}
@@ -686,9 +678,6 @@ func (p *remoteProp) step(ctx context.Context, rc *RunCtx, rp *RemoteParams, g *
 		if !present {
 			if err == nil {
 				return violation("wrong-answer", "", "step %d %s succeeded for absent content\n%s", i, op, hist())
-			}
-			if !notFound {
-				return violation("wrong-error", "", "step %d %s: expected not-found, got %v\n%s", i, op, err, hist())
 			}
 			return nil
 		}
